@@ -165,7 +165,7 @@ RULES = {
     "C09": "a resharing about to happen on real dkg.Process instances: 4-member epoch 1 (written by the harness), optional leaver, one joiner, one outsider key; the pristine packet of each type (proposal, accept, reject, execute, abort) is produced by "
            "the real sender and captured on the bus. Per case one victim (member / joiner / leaver / leader) and one derived packet: every single-field mutation of the terms (epoch, threshold, timeout, periods, scheme, genesis time/seed, beacon id, "
            "leader, participant address / key / signature, list membership and order) and of the metadata (address, beacon id, signature bits/length) keeping the signature; the same content re-signed by another member, the leaver, the joiner or an outsider "
-           "while claiming the real sender; the leader's key replaced by the attacker's in the lists with the attacker signing; entitlement cases (member sends the leader's proposal / execute / abort in its own name, accept / reject for somebody else, by the joiner, by the leaver). "
+           "while claiming the real sender; the leader's key replaced by the attacker's in the lists with the attacker signing; an accept in the name of a member that has rejected (after that rejection was heard); entitlement cases (member sends the leader's proposal / execute / abort in its own name, accept / reject for somebody else, by the joiner, by the leaver). "
            "Oracle: Packet returns an error, the victim's current+finished records are byte-identical (TOML), nothing is re-gossiped; afterwards the pristine packet is accepted by the same victim (anti-vacuity, and a replica of the signed message is "
            "validated against the pristine signature in every case). Non-trivial: every case; distinct by packet type, victim, forgery and key seed.",
     "C06": "real dkg.Process instances (real bolt dkg.db each) on an in-memory DKGClient bus. first DKG: scheme in 5, n in 1..7 (n=1 must be refused cleanly), t in [n/2+1,n], drawn permutation of the participant list handed to the leader, drawn leader, "
